@@ -10,7 +10,7 @@ set_option linter.unusedSimpArgs false
 set_option linter.unusedVariables false
 namespace Upnp.C04
 open Upnp PyDict Upnp.C03 Upnp.C16
-variable {σ : Type} [DecidableEq σ] (ipv : σ → Option Nat) (skip : σ → Bool) (src : σ)
+variable {σ : Type} [DecidableEq σ] (ipv : σ → Option Nat) (skip : σ → Bool) (src : σ) (mode : CbMode)
 
 /-- the device / type the observations are taken for: the message's -/
 def targetOf : Ev σ → Option σ × Option σ
@@ -19,7 +19,7 @@ def targetOf : Ev σ → Option σ × Option σ
 
 /-- what the model shows around one event: the sender's stored state before and after, the callbacks -/
 def modelObs (s : Tracker σ) (e : Ev σ) : Obs σ :=
-  ⟨targetOf e, lookOf s (targetOf e).1 (targetOf e).2, cbsOf src (step ipv skip s e).2,
+  ⟨targetOf e, lookOf s (targetOf e).1 (targetOf e).2, cbsOf src mode (step ipv skip s e).2,
    lookOf (step ipv skip s e).1 (targetOf e).1 (targetOf e).2⟩
 
 theorem mapEq_refl (a : Hdrs σ) : mapEq a a = true := by simp [mapEq]
@@ -53,8 +53,8 @@ theorem comb_ok (d : Dev σ) (ty : σ) :
   cases get? d.search ty <;> cases get? d.adv ty <;> simp [mapEqBut_refl, mapEqBut_remove]
 
 theorem flavours_cbsOf (n : Option (Notif σ)) :
-    flavours (cbsOf src n) = some (n.map fun n => ⟨false, n.udn, n.ty, n.source, combined src n.dev n.ty⟩) := by
-  cases n <;> simp [cbsOf, flavours]
+    flavours mode (cbsOf src mode n) = some (n.map fun n => ⟨false, n.udn, n.ty, n.source, combined src n.dev n.ty⟩) := by
+  cases n <;> cases mode <;> simp [cbsOf, flavours]
 
 theorem contains_keys {ν : Type} (d : PyDict σ ν) (k : σ) : (keys d).contains k = contains d k := by
   unfold PyDict.contains
